@@ -96,9 +96,28 @@ def Vc(alias, n, missing_at, insertions):
 
 def cat_x_cat(eng, nrows=3, ncols=3, row_ins=(), col_ins=(), unavailable=(), transforms=None):
     w = CellWorld(eng, [Vc("a", nrows, (1,), list(row_ins)), Vc("b", ncols, (0,), list(col_ins))])
-    w.free_measure("sum", "s", unavailable=unavailable)
+    M = w.free_measure("sum", "s", unavailable=unavailable)
     part = Cube(w.response(), transforms=transforms).partitions[0]
-    return share_obs(eng, part)
+    obs = share_obs(eng, part)
+    if transforms is None:
+        # the sums the shares are taken of: a subtotal / intersection cell is the plain signed sum of the base cells it spans
+        # (a NaN among them makes it NaN, a NaN elsewhere does not)
+        from .c11 import elements, display_order
+        rb, ri = elements(w, 0)
+        cb, ci = elements(w, 1)
+        R = display_order(w.vars[0], rb, ri)
+        Cc = display_order(w.vars[1], cb, ci)
+        want = np.empty((len(R), len(Cc)), dtype=object)
+        for a, (rsg, _) in enumerate(R):
+            for b, (csg, _) in enumerate(Cc):
+                tot = None
+                for i, si in rsg.items():
+                    for j, sj in csg.items():
+                        t = M[i, j] if si * sj > 0 else -M[i, j]
+                        tot = t if tot is None else tot + t
+                want[a, b] = tot
+        obs.append(Obs("sums (base cells, subtotals, intersections)", part.sums, want))
+    return obs
 
 
 def cat_strand(eng, n=4, ins=(), unavailable=()):
@@ -149,6 +168,7 @@ def specs(tier):
     add("cat x cat 2 row + 2 col subtotals", "cat_x_cat", dict(row_ins=[S("r12", [1, 2]), S("r23", [3, 2], anchor=2)], col_ins=[S("c12", [1, 2], anchor="top"), S("c13", [1, 3])]))
     add("cat x cat col subtotal, NaN outside addends", "cat_x_cat", dict(col_ins=[S("c12", [1, 2])], unavailable=[[0, 3]]))
     add("cat x cat col subtotal, NaN inside addends", "cat_x_cat", dict(col_ins=[S("c12", [1, 2])], row_ins=[S("r12", [1, 2])], unavailable=[[0, 1]]))
+    add("cat x cat row + col subtotal, NaN outside both", "cat_x_cat", dict(col_ins=[S("c12", [1, 2])], row_ins=[S("r12", [1, 2], anchor="top")], unavailable=[[3, 3]]))
     add("strand plain", "cat_strand", dict())
     add("strand subtotals", "cat_strand", dict(ins=[S("s12", [1, 2]), S("s34", [3, 4], anchor="top")]))
     add("strand difference", "cat_strand", dict(ins=[{"anchor": "bottom", "function": "subtotal", "name": "d", "kwargs": {"positive": [1, 2], "negative": [4]}}]))
